@@ -226,7 +226,58 @@ def run(ctx):
 
     for i in range(n_ops):
         with t.frame("op"):
-            op = t.weighted([8, 6, 3, 2, 1, 1], "op")
+            op = t.weighted([8, 6, 3, 2, 1, 1, 2], "op")
+            if op == 6:
+                # the original functions, evaluated outside the database and in physical coordinates
+                # (get_functions(no_db_no_norm=True) + evaluate_functions), with an explicit selection
+                j = t.choice(n_points, "point")
+                with_obj = t.flag(0.6, "evaluate_objective")
+                sel = t.weighted([2, 2, 1], "constraint_selection")  # by name / all / none
+                want_j = t.flag(0.5, "with_jacobians") and user_jac
+                xq = phys_of(points[j], False)
+                if round_ints is False and with_int:
+                    xq = points[j].copy()
+                db_before = {tuple(x.wrapped_array.tolist()): sorted(r) for x, r in p.database.items()} if use_db else None
+                calls_before = {n: len(fn.calls) for n, fn in fns.items()}
+                ops.append(("no_db_no_norm", j, with_obj, ["by-name", "all", "none"][sel], want_j))
+                try:
+                    ofs, jfs = p.get_functions(
+                        no_db_no_norm=True, evaluate_objective=with_obj, observable_names=None,
+                        constraint_names=[dbn["g"]] if sel == 0 else (() if sel == 1 else None),
+                        jacobian_names=() if want_j else None,
+                    )
+                    outs, jacs = p.evaluate_functions(design_vector=points[j].copy(), design_vector_is_normalized=False,
+                                                       output_functions=ofs or None, jacobian_functions=jfs or None)
+                except Exception as exc:  # noqa: BLE001
+                    ctx.violate("C01.faithful_value", sig + " no_db_no_norm raised", f"{ops[-1]} raised {exc!r}; cfg={cfg}")
+                ctx.event("nodb", j, canon({k: np.asarray(v) for k, v in outs.items()}))
+                x_eval = np.where(is_int, np.round(points[j]), points[j]) if round_ints else points[j]
+                # the original functions are not rounded nor normalised: they see the given physical point
+                for nm, key_n in (("f", dbn["f"]), ("g", dbn["g"])):
+                    if key_n in outs:
+                        sgn, off = std[nm]
+                        got = np.atleast_1d(np.asarray(outs[key_n], dtype=float))
+                        cands = [sgn * (np.atleast_1d(fns[nm].f(xx)) - off) for xx in (points[j], x_eval)]
+                        if not any(got.shape == c.shape and np.allclose(got, c, rtol=1e-11, atol=1e-11) for c in cands):
+                            ctx.violate("C01.faithful_value", sig + " no_db_no_norm", f"{ops[-1]}: {key_n}={got} but the original function gives {cands[0]} at the physical point {points[j]}; cfg={cfg}")
+                    if key_n in jacs:
+                        sgn, off = std[nm]
+                        got = np.atleast_2d(dense(jacs[key_n]).astype(float))
+                        cands = [sgn * np.atleast_2d(fns[nm].df(xx)) for xx in (points[j], x_eval)]
+                        if not any(got.shape == c.shape and np.allclose(got, c, rtol=1e-11, atol=1e-10) for c in cands):
+                            ctx.violate("C01.jacobian_in_caller_coordinates", sig + " no_db_no_norm phys", f"{ops[-1]}: Jacobian of {key_n} = {got.tolist()} but the physical Jacobian of the original function is {cands[0].tolist()}; cfg={cfg}")
+                if sel == 0 and set(outs) - {dbn["f"], dbn["g"]}:
+                    pass
+                if use_db:
+                    db_after = {tuple(x.wrapped_array.tolist()): sorted(r) for x, r in p.database.items()}
+                    if db_after != db_before:
+                        ctx.violate("C01.recorded", sig + " no_db_no_norm writes-database", f"{ops[-1]} changed the database although no_db_no_norm=True: {db_before} -> {db_after}; cfg={cfg}")
+                for nm, fn in fns.items():
+                    for xc in fn.calls[calls_before[nm]:]:
+                        if not (np.allclose(xc, points[j], rtol=1e-12, atol=1e-12) or np.allclose(xc, x_eval, rtol=1e-12, atol=1e-12)):
+                            ctx.violate("C01.physical_point", sig + " no_db_no_norm", f"{ops[-1]}: {nm} was called at {xc}, the physical point is {points[j]}; cfg={cfg}")
+                ctx.probe("original_functions_outside_database")
+                continue
             if op == 4 and use_db:
                 ops.append(("clear",))
                 p.database.clear()
